@@ -76,18 +76,20 @@ theorem outTable_formatTime (s : Scalar) : (outTable s).formatTime = (s == .time
 
 /-- **C05_current.**  `C05_data` on the tables and the leaf branch generated from the source on this
 run: for every declared type, every resolver value satisfying `dataSound` (no pinned-deviation arm, no
-undeclared enum name, no fast-path slice) and every behaviour of the runtime's floats and times, the
+undeclared enum name; typed slices included now that their members are resolved, D18 repaired) and every behaviour of the runtime's floats and times, the
 response value is well-typed. -/
 theorem C05_current {F : Type} (ext : Ext F) (laws : ExtLaws ext) (t : TRef) (d : Data F)
-    (hs : dataSound outTable Gen.leafErrNulls t d = true) :
-    wellTyped ext t (resolveData ext outTable Gen.leafErrNulls t d).1 = true :=
-  C05_data ext laws outTable Gen.leafErrNulls outTable_formatTime t d hs
+    (hs : dataSound outTable Gen.leafErrNulls Gen.fastSliceCopies t d = true) :
+    wellTyped ext t (resolveData ext outTable Gen.leafErrNulls Gen.fastSliceCopies t d).1 = true :=
+  C05_data ext laws outTable Gen.leafErrNulls Gen.fastSliceCopies outTable_formatTime t d hs
 
 /-- non-vacuity: a list of Boolean strings, one of which does not parse, and an Int64 string are
 `dataSound` on the current source -/
-example : dataSound (F := Nat) outTable Gen.leafErrNulls (.list (.scalar .boolean))
+example : dataSound (F := Nat) outTable Gen.leafErrNulls Gen.fastSliceCopies (.list (.scalar .boolean))
     (.list [.leaf (.str "true"), .leaf (.str "nope"), .leaf .nil]) = true ∧
-    dataSound (F := Nat) outTable Gen.leafErrNulls (.nonNull (.scalar .int64)) (.leaf (.str "x12")) = true := by decide
+    dataSound (F := Nat) outTable Gen.leafErrNulls Gen.fastSliceCopies (.nonNull (.scalar .int64)) (.leaf (.str "x12")) = true ∧
+    dataSound (F := Nat) outTable Gen.leafErrNulls Gen.fastSliceCopies (.list (.scalar .string))
+      (.slice .fast [.int .int 1, .int .int 2]) = true := by decide
 
 /-- **C04_tables.**  The same for `CoerceIn`. -/
 theorem C04_tables :
